@@ -68,8 +68,10 @@ Definition get (x : entry) : option N := match x with Val n => Some n | _ => Non
 
 (* what the server's send() does: return, or raise
    OSError (cause text "received NNNN ..." or none), Exception("... code = 1000 (OK) ..."),
-   Exception("... protocol accepted must be from the list ..."), some other exception *)
-Inductive sfail := SOk | SOSError (cause : option Z) | SNormal | SProto | SOther.
+   Exception("... protocol accepted must be from the list ..."), some other exception,
+   SInvalid: an exception (Exception or ValueError, any letter case) whose message contains
+   "invalid close code" -- how Daphne / Autobahn reject a close code *)
+Inductive sfail := SOk | SOSError (cause : option Z) | SNormal | SProto | SOther | SInvalid.
 
 Inductive event :=
 | EAccept (sub : option N) (hdrs : bool)
@@ -78,6 +80,7 @@ Inductive event :=
 
 Inductive exc :=
 | XNotAllowed | XDisc (code : Z) | XPayload | XValue | XType | XOSError | XOther | XAssert
+| XInvalidCode     (* the server's exception whose text mentions "invalid close code" *)
 | XHTTPError (status : Z) | XHTTPStatus (status : Z) | XGeneric.
 
 Record ws := mkWs {
@@ -133,6 +136,7 @@ Definition do_send (e : event) (w0 : ws) : option exc * ws :=
     | SNormal => (Some (XDisc 1000), set_st Closed (set_ccode (Some 1000) w1))
     | SProto => (Some XValue, set_st Closed w1)
     | SOther => (Some XOther, w1)
+    | SInvalid => (Some XInvalidCode, w1)     (* not translated: re-raised as is *)
     end
   end.
 
@@ -267,6 +271,7 @@ Definition op_close (fixed : bool) (has_reason : Z -> bool) (c : cfg) (ca : code
         match k with
         | SOk => (Ret VNone, set_st Closed (set_ccode (Some code) w1))
         | SOSError _ => (Raise XOSError, w1)
+        | SInvalid => (Raise XInvalidCode, w1)
         | _ => (Raise XOther, w1)
         end
   end.
@@ -423,19 +428,28 @@ Fixpoint run_script (fixed : bool) (hr : Z -> bool) (c : cfg) (sc : script) (w :
 
 Inductive route := Routed (sc : script) | Unrouted | NoResponder.
 
+(* `'invalid close code' in str(ex).lower()` for an exception raised by close(err_code): true
+   for close()'s own validation errors ("Invalid close code. ...": the only ValueError close()
+   raises once the code is an int; a ValueError with a valid code comes from the translation of
+   a subprotocol rejection and has another text) and for the server's SInvalid exceptions *)
+Definition mentions_invalid_code (c : cfg) (x : exc) : bool :=
+  match x with
+  | XInvalidCode => true
+  | XValue => match code_check (CInt (err_code c)) with inr _ => true | inl _ => false end
+  | _ => false
+  end.
+
 (* _ws_cleanup_on_error: the fallback code is used when close() rejected the configured code
    ("Invalid close code ..." is the only error text the handler looks for) *)
 Definition cleanup (fixed : bool) (hr : Z -> bool) (c : cfg) (w : ws) : ending * ws :=
   match op_close fixed hr c (CInt (err_code c)) false w with
   | (Raise x, w1) =>
-    match code_check (CInt (err_code c)) with
-    | inr _ =>
+    if mentions_invalid_code c x then
       match op_close fixed hr c (CInt fallback_ws_error_code) false w1 with
       | (Raise y, w2) => (Raised y, w2)
       | (_, w2) => (Returned, w2)
       end
-    | inl _ => (Raised x, w1)
-    end
+    else (Raised x, w1)
   | (_, w1) => (Returned, w1)
   end.
 
@@ -457,7 +471,10 @@ Definition session (fixed : bool) (hr : Z -> bool) (c : cfg) (connect_ok : bool)
   let w0 := ws0 cl fl in
   if negb connect_ok then
     let (k, w1) := attempt (EClose ws_server_error_code (reason_ok c)) w0 in
-    ([], match k with SOk => Returned | SOSError _ => Raised XOSError | _ => Raised XOther end, w1)
+    ([], match k with
+         | SOk => Returned | SOSError _ => Raised XOSError | SInvalid => Raised XInvalidCode
+         | _ => Raised XOther
+         end, w1)
   else
     let '(rs1, e1, w1) := run_script fixed hr c mw w0 in
     let '(rs, e, w2) :=
